@@ -33,7 +33,6 @@ TAIL_NAMES = ["intr", "ctxt", "btime", "processes", "procs_running", "procs_bloc
 CLKS = [100, 100, 100, 100, 250, 1000, 1, 1024]
 VALS = [0, 1, 99, 2 ** 31, 2 ** 32, 2 ** 53 + 1, 2 ** 63, 2 ** 64 - 1, 10 ** 25]
 KEY_SUBSEC = "cpu_times_percent-subsecond"
-KEY_NCPU = "proc-cpu_percent-ncpu-change"
 
 
 # ------------------------------------------------------------------ generators
@@ -312,7 +311,7 @@ def coq_struct(case, raw):
     if k == "script_raw":
         return {"model": raw[0], "spec": None}
     if k == "proc":
-        return {"model": raw[0], "spec": raw[1], "same_ncpu": raw[2]}
+        return {"model": raw[0], "spec": raw[1]}
     raise ValueError(k)
 
 
@@ -330,8 +329,6 @@ def finding_key(case, coq):
         for e, tots in zip(case["events"], coq["totals"]):
             if e["fn"] == "tp" and any(0 < t < case["clk"] for t in tots):
                 return KEY_SUBSEC
-    if k == "proc" and coq.get("same_ncpu") is False and coq["model"] != coq["spec"]:
-        return KEY_NCPU
     return None
 
 
@@ -344,8 +341,6 @@ def judge(case, coq, impl):
         k = finding_key(case, coq)
         if k == KEY_SUBSEC:
             v.detail = "cpu_times_percent over less than one elapsed CPU-second: shares do not add up to 100"
-        elif k == KEY_NCPU:
-            v.detail = "Process.cpu_percent across a change of cpu_count(): not 100*cpu/wall"
     return v
 
 
